@@ -1147,6 +1147,9 @@ func c19(c *Ctx) {
 		if fsys.escaped && j.excl == "" {
 			j.excl = "above-root"
 		}
+		if answer == "err negext-unsupported" && j.excl == "" {
+			j.excl = "negext-unsupported" // C17: !(…) next to other pattern characters is rejected
+		}
 		if j.excl != "" {
 			c.Hist["excl:"+j.excl]++
 		}
@@ -1413,6 +1416,11 @@ func c19Excl(cs c19Case) string {
 			}
 		}
 	}
+	if esc0, _ := c19Escaped(cs); !ext && c19HasExtGroup(esc0) && cs.opts&c19NoGlob == 0 {
+		// bash classifies `@(` `+(` `!(` as pattern characters even without extglob: with nocaseglob the
+		// word can come back in the case of the file name, and `//` after it is collapsed
+		return "extop-without-extglob"
+	}
 	escaped, candidate := c19Escaped(cs)
 	globbed := candidate && c19HasMeta(escaped) && cs.opts&c19NoGlob == 0
 	if !globbed {
@@ -1609,6 +1617,22 @@ func c19SpecInside(cs c19Case) bool {
 			for i := 0; i < len(s.val); i++ {
 				chars = append(chars, pc{s.val[i], false})
 			}
+		}
+	}
+	{
+		var wb strings.Builder
+		quotedParen := false
+		for _, ch := range chars {
+			if ch.q {
+				wb.WriteByte('\\')
+				if ch.c == '(' || ch.c == ')' || ch.c == '|' {
+					quotedParen = true
+				}
+			}
+			wb.WriteByte(ch.c)
+		}
+		if c19HasExtGroup(wb.String()) && (cs.opts&c19Ext == 0 || quotedParen) {
+			return false
 		}
 	}
 	chars = append(chars, pc{'/', false})
